@@ -392,3 +392,27 @@ def guard_variants(v, place):
             if a[0] == "variant" and a[1] == place and a[2] not in out:
                 out.append(a[2])
     return out
+
+
+def err_propagates(I, fn, is_callee):
+    """Does `fn` (already interpreted by I) return Err whenever its single call of a callee satisfying `is_callee`
+    returns Err - whatever the spelling (`?`, `map_err(..)?`, `if r.is_err() { return Err(..) }`, a match)?
+    Returns (ok, explanation, call node)."""
+    import formula as F
+    from interp import CallV
+    vcalls = [(c, a, n, cond) for c, a, n, cond, f in I.calls if f == fn and is_callee(c)]
+    if len(vcalls) != 1:
+        return False, "expected exactly one call, found %d" % len(vcalls), None
+    c_, a_, n_, cond_v = vcalls[0]
+    vp = CallV(c_, a_).r()
+    err_case = ("atom", ("variant", vp, "Err"))
+    exits = [cnd for cnd, v, nn, f in I.fails if f == fn]
+    for tv, tn, tf, tc in I.tries:
+        if tf == fn:
+            exits.append(F.And(tc, F.Not(I._try_success(tv, tn))))
+    if not exits:
+        return False, "the function has no error exit at all", n_
+    ces = F.counterexamples(F.And(cond_v, err_case), F.Or(*exits), "implies")
+    if ces:
+        return False, "a path continues although the call returned Err: %s" % F.show_asg(ces[0])[:200], n_
+    return True, "Err => exit", n_
